@@ -4,6 +4,7 @@ package c11
 
 import (
 	"fmt"
+	"strings"
 	"sync/atomic"
 	"testing"
 
@@ -51,6 +52,9 @@ func TestC11CleanStop(t *testing.T) {
 				sc.double(never, nil)
 			} else if nUnexec > 0 {
 				nUnexec--
+				for _, x := range strings.Split(blockKinds(b.Blocks[2]), "+") {
+					m.Eval("content:unexecuted-block-carries:"+x, fmt.Sprint(i))
+				}
 				sc := &scen{m: m, base: base, pre: &memWorld{imgs[i]}, oldHeads: old, next: nx, zoneOnly: true,
 					act: xact{name: fmt.Sprintf("clean-stop-unexecuted/%s/block%d", blockKinds(b.Blocks[2]), i), kind: "clean-stop-unexecuted", prep: []step{{op: 'S'}, {op: 'D', b: b}}, body: []step{{op: 'X'}}, blocks: []*hnet.Mined{b}}}
 				sc.single("clean-stop")
@@ -67,6 +71,6 @@ func TestC11CleanStop(t *testing.T) {
 			return
 		}
 	}
-	m.Need("clean-stop-idle:complete", "clean-stop-unexecuted:complete")
+	m.Need("clean-stop-idle:complete", "clean-stop-unexecuted:complete", "content:unexecuted-block-carries:qi")
 	m.Floor(int64(m.N(120, 1200)), m.N(30, 60))
 }
